@@ -25,7 +25,9 @@ FR = {
               "cs8": "charset=utf-8", "csbad": "charset=nonsense-7", "cs16": "charset=utf-16", "bnd": "boundary=BB", "bndq": 'boundary="B B"',
               "dq": '"', "eq": "=", "hi": "\xff", "jsonbadcs": "application/json; charset=nonsense-7", "json16": "application/json; charset=utf-16",
               "formbadcs": "application/x-www-form-urlencoded; charset=nonsense-7", "form16": "application/x-www-form-urlencoded; charset=utf-16",
-              "multinob": "multipart/form-data; charset=zz"},
+              "multinob": "multipart/form-data; charset=zz", "csundef": "charset=undefined", "cspuny": "charset=punycode",
+              "formundef": "application/x-www-form-urlencoded; charset=undefined", "jsonundef": "application/json; charset=undefined",
+              "multiundef": "multipart/form-data; boundary=BB; charset=undefined"},
     "clen": {"num": "12", "neg": "-5", "big": BIG, "sp": " ", "x": "x", "plus": "+", "dot": ".", "uni": "٣"},
     "date": {"ok": "Wed, 21 Oct 2015 07:28:00 GMT", "big": "Wed, 21 Oct 99999 07:28:00 GMT", "y0": "Mon, 01 Jan 0001 00:00:00 +2359", "junk": "yesterday",
              "num": "0", "hi": "\xff", "comma": ",", "y9999": "Fri, 31 Dec 9999 23:59:59 -0100", "y9999b": "Fri, 31 Dec 9999 12:00:00 -2359",
@@ -89,11 +91,11 @@ class World:
         }
 
 
-def run_case(world, iface, channel, entry, raw):
+def run_case(world, iface, channel, entry, raw, body=None):
     """apply the entry point to the value on one interface; returns (class, detail)"""
     p = recipes.pkg(iface)
     kw = {"headers": []}
-    body = b""
+    given_body, body = body, b""
     if channel == "path":
         kw["path"] = raw if raw.startswith("/") or entry == "url" else "/" + raw
     elif channel == "query":
@@ -107,7 +109,7 @@ def run_case(world, iface, channel, entry, raw):
     else:
         kw["headers"] = [(HEADER_OF[channel], raw)]
     if channel == "ctype":
-        body = b'{"a": 1}' if entry == "json" else b"a=1&b=%C3%A9"
+        body = given_body if given_body is not None else (b'{"a": 1}' if entry == "json" else b"a=1&b=%C3%A9")
         kw["method"] = "POST"
     if channel in ("inm", "ims"):
         kw["path"] = "/a.txt"
@@ -214,11 +216,29 @@ def run(ctx):
                         ctx.violation({"channel": ch, "entry": entry, "iface": iface, "fragments": list(st["value"]), "value": repr(shown)},
                                       "a value, an HTTP 4xx, client-disconnect or stream-consumed", detail,
                                       "%s via %s (%s): %s escapes" % (ch, entry, iface, detail))
-            if any(f in ("nul", "hi", "big", "br", "bad8", "deep", "csbad", "cs16", "uni", "bigsuf", "y0", "y1", "y9999", "y9999b", "neg", "mpnocolon", "mpnodisp", "mphi", "mpnoname", "mpfileonly", "mpempty", "mpcont",
+            if any(f in ("nul", "hi", "big", "br", "bad8", "deep", "csbad", "cs16", "uni", "bigsuf", "y0", "y1", "y9999", "y9999b", "neg", "csundef", "cspuny", "formundef", "jsonundef", "multiundef", "mpnocolon", "mpnodisp", "mphi", "mpnoname", "mpfileonly", "mpempty", "mpcont",
                          "octbad", "pctbad", "br6", "date", "long", "nl") for f in st["value"]):
                 ctx.nontriv((ch, entry, st["value"]))
             if n in (10, 4000):
                 ctx.sample({"channel": ch, "entry": entry, "fragments": list(st["value"])})
+        # every codec name Python knows, declared as the charset of a JSON / urlencoded / multipart body
+        import encodings.aliases
+        codecs_ = sorted(set(encodings.aliases.aliases.values()) | set(encodings.aliases.aliases) | {"undefined", "punycode", "idna", "raw_unicode_escape", "unicode_escape", "utf-8-sig", "utf_8_sig", "x", ""})
+        mp_body = FR["body"]["mphi"] + FR["body"]["mp"] + FR["body"]["mpend"]
+        for cs in codecs_:
+            for ct, body in (("application/json", b'{"a": "\xe9\xff"}'), ("application/json", b'{"a": 1}'), ("application/x-www-form-urlencoded", b"a=1&b=%C3%A9&c=\xff\xfe"),
+                             ("application/x-www-form-urlencoded", b"a=1"), ("multipart/form-data; boundary=BB", mp_body)):
+                for iface in ("wsgi", "asgi"):
+                    cls, detail = run_case(world, iface, "ctype", "json" if "json" in ct else "form", "%s; charset=%s" % (ct, cs), body=body)
+                    ctx.count()
+                    if cls == "escape":
+                        key = ("ctype", ct, iface, detail)
+                        seen_escape[key] = seen_escape.get(key, 0) + 1
+                        if seen_escape[key] <= 2:
+                            ctx.violation({"channel": "ctype", "entry": ct, "iface": iface, "charset": cs, "body": repr(body[:40])},
+                                          "a value, an HTTP 4xx, client-disconnect or stream-consumed", detail,
+                                          "charset=%s on a %s body (%s): %s escapes" % (cs, ct.split(";")[0], iface, detail))
+            ctx.nontriv(("codec", cs))
         # noise beyond the fragment space
         rnd = random.Random(ctx.seed)
         N = 1500 if ctx.tier == "quick" else 20000
